@@ -72,14 +72,20 @@ Definition kind_service (k : kind) : str :=
 (* soap.parse_soap_enveloped_saml_<msgtype> exists (it does not for authz_decision_query) *)
 Definition kind_soap (k : kind) : bool := match k with KAuthz => false | _ => true end.
 
+(* the steps of the pipeline that a request class could define for itself (request.py): every Request subclass
+   INHERITS all of them from Request - there is one _loads, one _verify, one issue_instant_ok for all kinds.
+   Recorded from the method resolution of each class on every run (last column of the table). *)
+Definition kind_overrides (k : kind) : list str := [].
+
 (* one row of the table as the translator records it from the code:
    (method, request class, msgtype of the class, service, msgtype handed to
     correctly_signed_message, text and must passed through,
-    root tags <msgtype>_from_string accepts, SOAP reader exists, root tags the SOAP reader accepts) *)
-Definition row := (str * str * str * str * str * bool * list str * bool * list str)%type.
+    root tags <msgtype>_from_string accepts, SOAP reader exists, root tags the SOAP reader accepts,
+    which of _loads / loads / _verify / verify / issue_instant_ok the class does NOT take from Request) *)
+Definition row := (str * str * str * str * str * bool * list str * bool * list str * list str)%type.
 Definition documented_row (k : kind) : row :=
   (kind_method k, kind_class k, kind_msgtype k, kind_service k, kind_msgtype k, true,
-   [kind_tag k], kind_soap k, if kind_soap k then [kind_tag k] else []).
+   [kind_tag k], kind_soap k, if kind_soap k then [kind_tag k] else [], kind_overrides k).
 Definition documented_table : list row := map documented_row all_kinds.
 
 Definition bool_eqb (a b : bool) : bool := Bool.eqb a b.
@@ -91,9 +97,9 @@ Fixpoint strs_eqb (a b : list str) : bool :=
   end.
 Definition row_eqb (a b : row) : bool :=
   match a, b with
-  | (m1, c1, t1, s1, g1, p1, r1, e1, q1), (m2, c2, t2, s2, g2, p2, r2, e2, q2) =>
+  | (m1, c1, t1, s1, g1, p1, r1, e1, q1, o1), (m2, c2, t2, s2, g2, p2, r2, e2, q2, o2) =>
       str_eqb m1 m2 && str_eqb c1 c2 && str_eqb t1 t2 && str_eqb s1 s2 && str_eqb g1 g2 &&
-      bool_eqb p1 p2 && strs_eqb r1 r2 && bool_eqb e1 e2 && strs_eqb q1 q2
+      bool_eqb p1 p2 && strs_eqb r1 r2 && bool_eqb e1 e2 && strs_eqb q1 q2 && strs_eqb o1 o2
   end.
 Fixpoint rows_eqb (a b : list row) : bool :=
   match a, b with
@@ -193,6 +199,12 @@ Definition addr_mem (d : str) (l : list addr) : bool :=
 (* ------------------------------------------------------------------ *)
 (* the message                                                          *)
 (* ------------------------------------------------------------------ *)
+(* kind-specific optional content of the root element (everything but ID / Version / IssueInstant / Destination /
+   Issuer / Signature): the path of an optional attribute or child below the root, and - when it is an xs:dateTime
+   (LogoutRequest/@NotOnOrAfter, Conditions/@NotBefore, SubjectConfirmationData/@NotOnOrAfter ...) - its value in
+   seconds.  No step of the pipeline reads it (Props/C10.v: C10_blind_to_optional_content). *)
+Definition optattr := (str * option Z)%type.
+
 (* a well-formed XML document whose root is [d_tree]; the fields are what
    <msgtype>_from_string + valid_instance make of the ROOT element *)
 Record reqdoc := {
@@ -202,7 +214,8 @@ Record reqdoc := {
   d_issue_instant : option Z;    (* IssueInstant in seconds; None: absent / not a dateTime (then valid_instance fails) *)
   d_valid : bool;                (* valid_instance(message) passes *)
   d_issuer : option str;         (* message.issuer.text.strip(); None when there is no issuer text *)
-  d_embedded : list N            (* certificates in the KeyInfo of the root's Signature child (cert_from_instance) *)
+  d_embedded : list N;           (* certificates in the KeyInfo of the root's Signature child (cert_from_instance) *)
+  d_opts : list optattr          (* the kind-specific optional attributes / children the message carries *)
 }.
 
 Inductive xmltext := NotXml | Xml (d : reqdoc).
@@ -417,6 +430,41 @@ Definition destination_ok (c : rcfg) (k : kind) (b : binding) (d : reqdoc) : Pro
   d_destination d = None \/ d_destination d = Some [] \/
   receiver_addrs c (kind_service k) b = [] \/
   exists x, d_destination d = Some x /\ In (Some x) (receiver_addrs c (kind_service k) b).
+
+(* ---- kind-specific optional content, long-lived receivers (Props/C10.v (7), (8)) ---- *)
+(* the same document carrying other optional content *)
+Definition set_opts (o : list optattr) (d : reqdoc) : reqdoc :=
+  Build_reqdoc (d_tree d) (d_version d) (d_destination d) (d_issue_instant d) (d_valid d) (d_issuer d) (d_embedded d) o.
+Definition xml_set_opts (o : list optattr) (x : xmltext) : xmltext :=
+  match x with NotXml => NotXml | Xml d => Xml (set_opts o d) end.
+Definition wire_set_opts (o : list optattr) (w : wire) : wire :=
+  match w with
+  | WFail => WFail
+  | WText x => WText (xml_set_opts o x)
+  | WSoap (SoapPart d) => WSoap (SoapPart (set_opts o d))
+  | WSoap s => WSoap s
+  end.
+Definition res_set_opts (o : list optattr) (r : result (option reqdoc)) : result (option reqdoc) :=
+  match r with Ok (Some d) => Ok (Some (set_opts o d)) | x => x end.
+
+(* a reason to refuse request document [d] arriving at the entry point of kind [k] over binding [b] *)
+Definition must_be_refused (c : rcfg) (k : kind) (b : binding) (d : reqdoc) : Prop :=
+  (forall t, d_issue_instant d = Some t -> ~ in_window c t) \/            (* stale, dated ahead, or no instant *)
+  (exists x, d_destination d = Some x /\ x <> [] /\ receiver_addrs c (kind_service k) b <> [] /\
+             ~ In (Some x) (receiver_addrs c (kind_service k) b)) \/       (* addressed to somebody / something else *)
+  ((c_want_signed c = true \/ c_only_valid_cert c = true) /\ root_signed (d_tree d) = false) \/   (* unsigned but wanted *)
+  d_version d <> Some V20 \/ d_valid d = false \/ root_name (d_tree d) <> Some (kind_name k).
+
+(* one long-lived receiver (a Server / Saml2Client object keeps its configuration; every _parse_request builds a fresh
+   Request object) taking in a sequence of messages: what it has handed over so far, in order *)
+Definition op := (kind * binding * wire)%type.
+Fixpoint run_history (pre fixd : bool) (c : rcfg) (ops : list op) (handed : list (op * reqdoc)) : list (op * reqdoc) :=
+  match ops with
+  | [] => handed
+  | (k, b, w) :: r =>
+      run_history pre fixd c r
+        (match parse_request pre fixd c k b w with Ok (Some d) => handed ++ [((k, b, w), d)] | _ => handed end)
+  end.
 
 (* the received text is the clean encoding of document [d] for the binding *)
 Definition carries (k : kind) (b : binding) (w : wire) (d : reqdoc) : Prop :=
